@@ -72,9 +72,22 @@ const (
 	opDepth0 // network only
 	opDepth1 // network only
 	opFlush  // a flush inside a history or a continuation
+	// history-only operations (ways to use an instance before it is flushed)
+	opActivate // network only: Activate()
+	opBadLoad  // LoadSensors with the wrong number of values (an error the caller may ignore)
+	opInspect  // the read-only accessors and printers
 )
 
-var c13OpNames = []string{"Load(0.5)", "Load(-1.5)", "Forward(1)", "Forward(2)", "Recursive", "Relax(3,1e-9)", "Depth(0)", "Depth(1)", "Flush"}
+var c13OpNames = []string{"Load(0.5)", "Load(-1.5)", "Forward(1)", "Forward(2)", "Recursive", "Relax(3,1e-9)", "Depth(0)", "Depth(1)", "Flush", "Activate()", "Load(two values)", "Inspect"}
+
+// c13HistoryAlphabet: the alphabet of histories = the continuation alphabet plus the history-only operations.
+func c13HistoryAlphabet(fast bool) []int {
+	a := c13Alphabet(fast)
+	if !fast {
+		a = append(a, opActivate)
+	}
+	return append(a, opBadLoad, opInspect)
+}
 
 func c13Alphabet(fast bool) []int {
 	if fast {
@@ -196,6 +209,28 @@ func (in *c13Inst) apply(op int, b *strings.Builder) {
 			res, err = solver.Relax(3, 1e-9)
 		case opFlush:
 			res, err = solver.Flush()
+		case opActivate:
+			res, err = in.net.Activate()
+		case opBadLoad:
+			err = solver.LoadSensors([]float64{0.25, 4})
+			res = err == nil
+		case opInspect:
+			_, _ = solver.NodeCount(), solver.LinkCount()
+			if in.fast == nil {
+				_, _, _ = in.net.PrintActivation(), in.net.PrintInput(), in.net.OutputIsOff()
+				_ = in.net.Complexity()
+				cnt := 0
+				for _, a := range in.net.BaseNodes() {
+					for _, b := range in.net.BaseNodes() {
+						_ = in.net.IsRecurrent(a, b, &cnt, 64)
+						_ = in.net.HasEdgeBetween(int64(a.Id), int64(b.Id))
+					}
+				}
+				_ = in.net.Nodes().Len()
+			} else if st, ok := in.fast.(fmt.Stringer); ok {
+				_ = st.String()
+			}
+			res = true
 		case opDepth0, opDepth1:
 			var d int
 			d, err = in.net.MaxActivationDepthWithCap(op - opDepth0)
@@ -375,7 +410,7 @@ func runC13(c *Ctx) {
 				if j.picks == nil && j.sh.Hidden == 2 {
 					h, sq = 2, 2 // all 2^15 two-hidden digraphs: histories and continuations of length <= 2
 				}
-				hs, ss := c13Seqs(alpha, h), c13Seqs(alpha, sq)
+				hs, ss := c13Seqs(c13HistoryAlphabet(fast), h), c13Seqs(alpha, sq)
 				for _, variant := range [][2]bool{{false, false}, {true, true}} {
 					n := c13Eval(c, j.sh, g, variant[0], variant[1], fast, hs, ss)
 					pairs += n
@@ -395,7 +430,7 @@ func runC13(c *Ctx) {
 	})
 	c.States = int64(len(c.distinct))
 	c.Sample(map[string]interface{}{"network": c13Spec(c13Shape{1}, 0b10_01_0110, true, false).Short(), "history": opsString([]int{opLoad1, opRecursive}), "continuation": opsString([]int{opLoad2, opFwd1, opFwd2})})
-	c.Rule = fmt.Sprintf("networks: ALL digraphs over {bias, input, output, hidden} (4 neuron->neuron edges incl. self-loops and output->hidden, 4 sensor->neuron edges; the output precedes the hidden node in the node list)%s, each in two variants (plain; cycle-closing edges flagged recurrent and time-delayed in the standard network + mixed activation types); solvers: standard Network, the fast solver derived from it, and a fast solver constructed directly through NewFastModularNetworkSolver with the bias links as ordinary connections; alphabet: Load(0.5), Load(-1.5), Forward(1), Forward(2), Recursive, Relax(3,1e-9) [fast], Depth(0), Depth(1) [network], Flush; every history h of length 1..%d and every continuation s of length 1..%d: outputs, boolean results and errors of every step of s after (h; Flush) must equal those on a fresh instance bit for bit. states = distinct (network, solver, variant), transitions = (h,s) pairs compared",
+	c.Rule = fmt.Sprintf("networks: ALL digraphs over {bias, input, output, hidden} (4 neuron->neuron edges incl. self-loops and output->hidden, 4 sensor->neuron edges; the output precedes the hidden node in the node list)%s, each in two variants (plain; cycle-closing edges flagged recurrent and time-delayed in the standard network + mixed activation types); solvers: standard Network, the fast solver derived from it, and a fast solver constructed directly through NewFastModularNetworkSolver with the bias links as ordinary connections; alphabet: Load(0.5), Load(-1.5), Forward(1), Forward(2), Recursive, Relax(3,1e-9) [fast], Depth(0), Depth(1) [network], Flush; histories additionally Activate() [network], a load with the wrong number of values, and the read-only accessors / printers / graph queries; every history h of length 1..%d and every continuation s of length 1..%d: outputs, boolean results and errors of every step of s after (h; Flush) must equal those on a fresh instance bit for bit. states = distinct (network, solver, variant), transitions = (h,s) pairs compared",
 		map[bool]string{true: " plus six hand-picked two-hidden recurrent networks", false: " and ALL digraphs over {bias, input, output, 2 hidden} (9 + 6 edges; histories and continuations of length <= 2 for these)"}[c.Quick()], hl, sl)
 	c.Assume("observations are the outputs, results and errors after every operation (node-internal state is observed only through them)")
 }
